@@ -18,7 +18,7 @@ from vmon.libutil import load_definition, monitored
 
 LEVEL = "fault_enumeration"
 SHARDS = {"quick": 16, "thorough": 16}
-MUST = ["cut.cases", "kind.bytes", "kind.bytesio", "kind.file", "kind.realfile", "kind.realfile_update", "kind.bytesio_used_before_first_next", "headers_only.empty_definition", "kind.shortfile", "kind.socket_closed",
+MUST = ["cut.cases", "kind.bytes", "kind.bytesio", "kind.file", "kind.realfile", "kind.realfile_update", "kind.bytesio_used_before_first_next", "headers_only.empty_definition", "headers_only.with_combine_segmented", "kind.shortfile", "kind.socket_closed",
         "kind.socketpair_closed", "empty.cases", "random.cases", "via_definition.cases", "cut.in_header", "cut.in_body",
         "cut.on_border", "progress.cases", "big.maxsize_cases", "big.beyond20MB_cases", "cli.truncated_runs", "cli.truncated_long_file"]
 RULE = ("fault = end of data at byte offset c of a valid stream; enumerated: every c in 0..len for 6 base streams "
@@ -153,6 +153,10 @@ def _one(ctx, data, k, kind, r, entry, defn, cls, rng, progress):
         if entry == "raw":
             gen = P.ccsds_generator(src, **kw)
         elif entry == "headers_only":
+            if ctx.counters["evaluations"] % 2 == 1:
+                # headers-only is a pass-through of the framer: asking for segment re-combination as well changes nothing
+                kw["combine_segmented_packets"] = True
+                ctx.count("headers_only.with_combine_segmented")
             # every third headers-only run goes through a definition that describes nothing at all (this mode does not use it)
             if ctx.counters["evaluations"] % 3 == 0:
                 from space_packet_parser.xtce.definitions import XtcePacketDefinition
